@@ -57,3 +57,13 @@ Theorem C14_todecsci_first_partial :
     (rd (fmt 15 v) <> v -> rd (fmt 16 v) <> v -> todecsci64 F text fmt rd feq v = fmt 17 v).
 Proof. exact todecsci_first. Qed.
 Print Assumptions C14_todecsci_first_partial.
+
+(* ---- the ".0" rules ---- *)
+Theorem C14_print_dot0_eq_lua : forall s, (0 < length s)%nat -> Z.of_nat (length s) + 2 < PRINT_BUF ->
+  nl_print_dot0 s = lua_add_dot0 s.
+Proof. exact print_dot0_eq_lua. Qed.
+Print Assumptions C14_print_dot0_eq_lua.
+
+Theorem C14_force_fract_not_int_like : forall s, int_like (nl_force_fract s) = false.
+Proof. exact force_fract_not_int_like. Qed.
+Print Assumptions C14_force_fract_not_int_like.
